@@ -44,7 +44,7 @@ func (node *tagIncludeNode) Execute(ctx *ExecutionContext, writer TemplateWriter
 		// Get include-filename
 		includedFilename := ctx.template.set.resolveFilename(ctx.template, filename.String())
 
-		includedTpl, err2 := ctx.template.set.FromFile(includedFilename)
+		includedTpl, err2 := ctx.template.set.fromFileNested(ctx.template, includedFilename)
 		if err2 != nil {
 			// if this is ReadFile error, and "if_exists" flag is enabled
 			// (only if the included file itself is missing, not a file it refers to)
@@ -99,7 +99,7 @@ func tagIncludeParser(doc *Parser, start *Token, arguments *Parser) (INodeTag, *
 
 		// Parse the parent
 		includeNode.filename = includedFilename
-		includedTpl, err := doc.template.set.FromFile(includedFilename)
+		includedTpl, err := doc.template.set.fromFileNested(doc.template, includedFilename)
 		if err != nil {
 			// if this is ReadFile error, and "if_exists" token presents we should create and empty node
 			// (only if the included file itself is missing, not a file it refers to)
